@@ -68,6 +68,10 @@ type c03Env struct {
 	failPre   atomic.Int32 // fail the next script command before sending it
 	failPost  atomic.Int32 // let the next script command execute, then report an error
 	seq       atomic.Int64 // per-case unique key suffix
+
+	scriptsGone atomic.Bool // the server's script cache was flushed and not every script re-sent since
+	rawOnce     sync.Once
+	raw     *red.Client // plain go-redis client (no go-zero hooks) for server-side events
 }
 
 type c03Hook struct{ e *c03Env }
@@ -116,12 +120,18 @@ func c03NewEnv() (*c03Env, error) {
 	// failures outnumber 5 + accepts/2 within its 10 s window.
 	e.pad(300)
 	// load both scripts, so that a call is one EVALSHA from now on
-	if _, err := limit.NewPeriodLimit(1, 1, e.store, "c03:warm:").Take("p"); err != nil {
+	if err := e.warm(); err != nil {
 		return nil, fmt.Errorf("warm-up take: %w", err)
 	}
-	limit.NewTokenLimiter(1, 1, e.store, "c03:warm:t").AllowN(time.Unix(1_700_000_000, 0), 1)
 	mr.FlushAll()
 	return e, nil
+}
+
+// warm runs both scripts once through the stock client path (EVALSHA, on NOSCRIPT EVAL).
+func (e *c03Env) warm() error {
+	_, err := limit.NewPeriodLimit(1, 1, e.store, "c03:warm:").Take("p")
+	limit.NewTokenLimiter(1, 1, e.store, "c03:warm:t").AllowN(time.Unix(1_700_000_000, 0), 1)
+	return err
 }
 
 // installPreHook (re-)installs the server-side hook; a restarted miniredis has a new server.
@@ -138,11 +148,33 @@ func (e *c03Env) installPreHook() {
 	})
 }
 
+// scriptFlush makes the server lose its script cache (what a restarted or replaced Redis, a
+// fail-over or SCRIPT FLUSH does), optionally together with its data.  Sent through a plain
+// client, so neither the breaker nor the harness counters see it.
+func (e *c03Env) scriptFlush(dropData bool) error {
+	e.rawOnce.Do(func() { e.raw = red.NewClient(&red.Options{Addr: e.addr}) })
+	if err := e.raw.ScriptFlush(context.Background()).Err(); err != nil {
+		return err
+	}
+	e.scriptsGone.Store(true)
+	if dropData {
+		e.mr.FlushAll()
+	}
+	return nil
+}
+
 // reset clears fault switches a failed case may have left behind.
 func (e *c03Env) reset() {
 	e.down.Store(false)
 	e.failPre.Store(0)
 	e.failPost.Store(0)
+	if e.scriptsGone.Load() && !e.closed.Load() {
+		// the previous case ended with an empty script cache: start with a warm one again, so
+		// that the "one call = one script command" bookkeeping holds from the first call on
+		// (a lost cache is produced inside the cases, at generated points)
+		e.warm()
+		e.scriptsGone.Store(false)
+	}
 }
 
 // pad issues n successful PINGs (accepted by the breaker).
@@ -186,6 +218,33 @@ type c03Case struct {
 	e    *c03Env
 	log  strings.Builder
 	dead bool
+	// the server lost its script cache and no script has run since: the next call is
+	// EVALSHA -> NOSCRIPT -> EVAL, i.e. two script commands for one execution
+	flushPending bool
+	losses       int
+}
+
+// lose: the server loses its script cache (and, if drop, its data) while it is reachable.
+func (w *c03Case) lose(drop bool) {
+	if err := w.e.scriptFlush(drop); err != nil {
+		w.abort("SCRIPT FLUSH through the raw client failed: %v", err)
+	}
+	w.flushPending = true
+	w.losses++
+	if drop {
+		w.logf(" SERVER-REPLACED(scripts+data lost)")
+		w.st.Class("lose:scripts+data")
+	} else {
+		w.logf(" SCRIPTS-LOST")
+		w.st.Class("lose:scripts")
+	}
+}
+
+// oneExecution: the call was exactly one script execution on the server (two commands when
+// the script had to be re-sent after the server lost its cache).
+func (w *c03Case) oneExecution(p c03Probe) bool {
+	n := w.e.executed(p)
+	return n == 1 || (w.flushPending && n == 2)
 }
 
 func (w *c03Case) abort(format string, a ...any) {
